@@ -177,13 +177,13 @@ SMALL = ["http://a.com", "http://a.com/", "http://a.com/x", "http://a.com/x/", "
          "http://a.com/x?q=1", "http://a.com/x#f", "http://a.com/x?q=1#f", "http://b.a.com", "http://b.a.com/x",
          "https://a.com", "https://a.com/x", "http://a.com:8080", "http://a.com:8080/x", "http://com", "http://a.co.uk",
          "http://b.a.co.uk/x", "http://co.uk", "http://a.com/xy", "http://a.com/x|y?q=1|2", "http://a.com/x?q=1|", "http://a.com:0", "http://a.com:0/x", "http://a.com./", "http://a.com:/x",
-         "http://a.com/x//", "http://a.com///x"]      # runs of empty path stems
+         "http://a.com/x//", "http://a.com///x", "http://a.com/x|/y", "http://a.com/x|?k=1|#f"]      # runs of empty path stems
 SMALL_Q = SMALL + ["http://c.b.a.com/x/y/z?q=1#f", "http://a.com/x/y/z", "http://A.com/x", "http://www.a.com/x", "a.com/x",
                    "http://a.com/X", "http://x.co.uk", "http://a.com:8080/x/y", "https://b.a.com/x", "http://a.com/x/?q=1",
                    "http://a.com/x//y", "http://ab.com", "http://a.com/?q=1", "http://a.com/#f", "http://uk",
                    "http://a.com/x/index.html", "http://a.com/x?utm_source=z", "HTTP://A.COM/x/", "http://a.com/%78",
                    "http://fr.a.com/x", "http://a.com/../x", "http://a.com/x/../../x/y", "http://a.com/x|y", "http://a.com/x|y?q=1|2#f|g",
-                   "http://a.com/./x/y/..", "http://a.com/x///y", "http://a.com//x//", "http://a.com/x/y/w"]
+                   "http://a.com/./x/y/..", "http://a.com/x///y", "http://a.com//x//", "http://a.com/x/y/w", "http://a.com/x/y", "http://a.com/x|", "http://a.com/x|/y/z"]
 
 
 def _nt(case):
@@ -245,12 +245,12 @@ def _enum(acc, shard, nshards, seed, tier, length=2):
 
 
 BIG_HOSTS = ["a.com", "b.a.com", "c.b.a.com", "www.a.com", "a.co.uk", "b.a.co.uk", "com", "x.kawasaki.jp", "a.x.kawasaki.jp",
-             "A.com", "fr.a.com", "m.a.com", "a.com.", "uk", "co.uk", "bbc.co.uk"]
-BIG_PATHS = ["", "/", "/x", "/x/", "/x/y", "/x//y", "/x//", "///x", "/x///y/", "/x/y/z", "/X", "/x/index.html", "/%78", "/x/amp/",
+             "A.com", "fr.a.com", "m.a.com", "a.com.", "uk", "co.uk", "bbc.co.uk", "com.", "co.uk.", "github.io."]
+BIG_PATHS = ["", "/", "/ab", "/cb", "/x", "/x/", "/x/y", "/x//y", "/x//", "///x", "/x///y/", "/x/y/z", "/X", "/x/index.html", "/%78", "/x/amp/",
              # dot segments, also climbing above the root; a literal '|' inside a stem (never followed by '<stem letter>:', which the
              # serialized format cannot tell from a separator)
-             "/../x", "/x/../../x/y", "/./x/y/..", "/x|y", "/x/L|R/z"]
-BIG_TAILS = ["", "?q=1", "#f", "?q=1#f", "?b=2&a=1", "?a=1&b=2", "?utm_source=t&a=1", "#/route", "?family=L|R", "#tab|2", "?x=1|", "#f||"]
+             "/../x", "/x/../../x/y", "/./x/y/..", "/x|y", "/x/L|R/z", "/x|/y", "/x|/", "/x||/y|"]      # also a stem that *ends* with a pipe in front of the next stem
+BIG_TAILS = ["", "?q=1", "#f", "?q=1#f", "?b=2&a=1", "?a=1&b=2", "?utm_source=t&a=1", "#/route", "?family=L|R", "#tab|2", "?x=1|", "#f||", "?k=1|#f", "?q|#t|2"]
 KW = {
     "LRUTrie": [{}],
     "CanonicalizedLRUTrie": [{}, {"strip_fragment": True}, {"quoted": True}],
